@@ -60,6 +60,7 @@ def run(ctx):
         publisher_check(ctx, impl, names, jobs)
         listing_check(ctx, impl, jobs)
         symlink_check(ctx, impl, jobs)
+        read_symlink_check(ctx, impl, jobs)
         overlap_check(ctx, impl, jobs)
         upload_fault_check(ctx, impl, jobs)
         history_check(ctx, impl, jobs)
@@ -214,6 +215,13 @@ def corpus(ctx, impl):
             gather_symlink_case(ctx, impl, w["name"], w["where"], w["text"], sig=w["signature"])
         elif w["kind"] == "publisher-symlink":
             publish_symlink_case(ctx, impl, w["name"], w["ext"], w["text"], sig=w["signature"])
+        elif w["kind"] == "names-history":
+            run_names_history(ctx, impl, [(e[0], [b.encode() for b in e[1]], tuple(e[2]) if isinstance(e[2], list) else e[2], e[3])
+                                          for e in w["events"]], None, sig=w["signature"])
+        elif w["kind"] == "publisher-listing-symlink":
+            listing_symlink_case(ctx, impl, w["entry"], w["text"], w.get("sinces", [""]), sig=w["signature"])
+        elif w["kind"] == "gatherer-state-symlink":
+            state_symlink_case(ctx, impl, ("L", w["text"]), sig=w["signature"])
 
 
 # ---------------------------------------------------------------------------
@@ -946,10 +954,27 @@ def listing_check(ctx, impl, jobs):
             if not n > since:
                 ctx.fail("oracle/listing-ignores-since", "list_incident_names(since=%r) reports %r" % (since, n), replay=dict(since=since, reported=res))
         exp.append([[1 if out == "ok" else 0]] + [x for n, full in res for x in (list(enc(n)), list(enc(full)))])
-    pre = "Definition base : str := %s.\nDefinition listing : list str := %s.\n" % (cb(target), coq_list([cb(e) for e in listing]))
+    es, cs = coq_ents(dir_ents(target))
+    pre = "Definition base : str := %s.\nDefinition listing : list str := %s.\nDefinition s0 : st := mk_st %s %s.\n" % (
+        cb(target), coq_list([cb(e) for e in listing]), es, cs)
     jobs.append(make_job("C19_listing_0", "correspondence/listing", pre, "str", [cb(x) for x in sinces],
-                         "Definition obs (since : str) := [1%N] :: flat_map (fun np => [fst np; snd np]) (list_incidents base listing since).\n",
+                         "Definition obs (since : str) := [1%N] :: flat_map (fun np => [fst np; snd np]) (list_incidents_at s0 base listing since).\n",
                          exp, lambda i: "list_incident_names(since=%r) over %r" % (sinces[i], listing)))
+
+
+def dir_ents(target):
+    """model entries of every direct entry of `target` (the content of regular files does not matter to the read model)"""
+    ents = []
+    for e in os.listdir(target):
+        p = os.path.join(target, e)
+        st = os.lstat(p)
+        if stat.S_ISLNK(st.st_mode):
+            ents.append((p, ("L", os.readlink(p))))
+        elif stat.S_ISDIR(st.st_mode):
+            ents.append((p, ("D",)))
+        else:
+            ents.append((p, ("F", b"")))
+    return ents
 
 
 # ---------------------------------------------------------------------------
@@ -1027,6 +1052,76 @@ def run_uhistory(ctx, impl, name, variant, events, collect, sig=None):
                             exp=exp, desc=dict(name=name, variant=variant, events=trail)))
 
 
+COMPLETE = b"COMPLETE"
+# histories over SEVERAL names, some of which are another upload's temporary: (name, blocks, ending, crash_before_op | None)
+NHIST_FIXED = [
+    # the reviewer's pair: x.partial is published, then an interrupted upload of x removes it (directory left empty)
+    [("x.partial", [COMPLETE], "done", None), ("x", [b"aa"], ("error", 1, "source"), None)],
+    # ... a killed upload of x leaves a prefix of x's data under the published name x.partial
+    [("x.partial", [COMPLETE], "done", None), ("x", [b"aa", b"bb"], "done", 3)],
+    # ... and a COMPLETE upload of x consumes it as well
+    [("x.partial", [COMPLETE], "done", None), ("x", [b"aa"], "done", None)],
+    [("x.partial.partial", [COMPLETE], "done", None), ("x.partial", [b"q"], ("error", 0, "disconnect"), None), ("x", [b"r"], "done", None)],
+    # inside the guard (no final name is another upload's temporary): nothing may be lost
+    [("x", [b"aa"], "done", None), ("x.partial", [COMPLETE], "done", None), ("x.partial", [b"zz"], ("error", 1, "source"), None)],
+    [("y", [COMPLETE], "done", None), ("x", [b"aa", b"bb"], "done", 3), ("x", [b"aa"], ("badblock", 1, "str"), None), ("y.part", [b"k"], "done", None)],
+]
+
+
+def run_names_history(ctx, impl, events, collect, sig=None):
+    """sequential uploads under several names on one directory.  Oracle: a file that was PUBLISHED (its upload ended ok) stays
+    as it is until something is uploaded under its own name; an upload that does not end ok leaves its own final name as it was"""
+    arena, target, sent = impl.fresh("nhist")
+    comps = list(dict.fromkeys(e[0] for e in events))
+    tmps = [c + ".partial" for c in comps]
+    watch = [c for c in comps if c not in tmps]                          # full view compared with the model
+    kinds = list(dict.fromkeys(tmps))                                    # only the kind of entry (content depends on what a dying process flushed)
+    outside0 = impl.outside_snapshot(arena)
+    published, mevents, exp, trail = {}, [], [], []
+    for name, bl, ending, crash in events:
+        final = os.path.join(target, name)
+        good = bl if ending == "done" else bl[:ending[1]]
+        script = list(bl) if ending == "done" else list(good) + [impl.source_error(ending[2])]
+        before = view(final)
+        rec = impl.Recorder(arena, crash_at=crash)
+        out = impl.putfile(impl.make_uploader(target, 0o640), name, script, rec)
+        rec.cleanup()
+        oc = "Done" if ending == "done" else ("SrcError" if ending[0] == "error" else "BadBlock")
+        mevents.append("UUpload %s %s %s %d%%nat" % (cb(final), coq_list([cb(b) for b in good]), oc, 10 ** 4 if out != "crash" else crash + 1))
+        trail.append([name, [b.decode("latin1") for b in bl], ending, crash, out])
+        ctx.hist("names_history_event", "%s/%s%s" % (oc, "killed" if out == "crash" else "ran", "/collides" if name + ".partial" in published else ""))
+        what = dict(events=trail)
+        for p_, content in list(published.items()):
+            if p_ != name and view(os.path.join(target, p_)) != [2] + list(content):
+                v = view(os.path.join(target, p_))
+                collides = p_ == name + ".partial"
+                ctx.fail(sig or ("oracle/upload-name-is-another-uploads-temporary" if collides else "oracle/history-changes-other-entries"),
+                         "after the uploads %r: %r had been uploaded completely (its call answered ok) and showed %r; the upload of %r (-> %s) "
+                         "left it as %r%s" % (trail, p_, content, name, out, bytes(v[1:]) if v[0] == 2 else ("absent" if v == [0] else v),
+                                              " -- the service used the published file as the temporary of %r" % name if collides else ""),
+                         replay=what)
+                del published[p_]
+        v = view(final)
+        if out == "ok":
+            published[name] = b"".join(bl)
+            if v != [2] + list(b"".join(bl)):
+                ctx.fail(sig or "oracle/upload-not-published", "after the uploads %r the last call answered ok but %r shows %r" % (trail, name, v), replay=what)
+        elif v != before and not (ending == "done" and v == [2] + list(b"".join(bl))):
+            if name in published or before[0] != 2 or name not in tmps:
+                ctx.fail(sig or "oracle/history-partial-under-final-name", "after the uploads %r the final name %r shows %r (before the last call: %r)"
+                         % (trail, name, v, before), replay=what)
+            published.pop(name, None)
+        outside_changed = impl.outside_snapshot(arena) != outside0
+        if outside_changed:
+            ctx.fail(sig or "oracle/history-escapes-directory", "after the uploads %r something outside the target directory changed" % (trail,), replay=what)
+        exp += [[1 if outside_changed else 0]] + [view(os.path.join(target, c)) for c in watch] + [kind(view(os.path.join(target, c))) for c in kinds]
+    if collect is not None:
+        es, cs = coq_ents([(os.path.join(sent, "victim"), ("F", b"SENTINEL"))])
+        collect.append(dict(term="(%s, %s, %s, (%s, %s))" % (coq_list(mevents), coq_list([cb(os.path.join(target, c)) for c in watch]),
+                                                          coq_list([cb(os.path.join(target, c)) for c in kinds]), es, cs),
+                            exp=exp, desc=dict(events=trail)))
+
+
 def reg_chunks(impl, cache, data):
     key = json.dumps(data, sort_keys=True)
     if key not in cache:
@@ -1094,7 +1189,11 @@ def run_rhistory(ctx, impl, old, events, cache, collect, sig=None):
         exp += [v, view(planted), kind(view(tmp))]
     last = events[-1]
     if last[0] == "save" and last[2] == "complete":
-        if impl.load_registry(target) != last[1] or os.path.lexists(tmp):
+        try:
+            recovered = impl.load_registry(target) == last[1]
+        except Exception:               # unloadable after an uninterrupted rewrite: not recovered either
+            recovered = False
+        if not recovered or os.path.lexists(tmp):
             ctx.fail(sig or "oracle/registry-history-no-recovery", "after the events %r the last, uninterrupted rewrite is not what "
                      "load_service_data reads, or services.json.tmp is left behind (%s)" % (trail, os.path.lexists(tmp)), replay=dict(old=old, events=trail))
     if collect is not None:
@@ -1144,6 +1243,21 @@ def history_check(ctx, impl, jobs):
         ctx.hist("history_length", len(events))
     ctx.sample(dict(history=[list(e) if e[0] == "plant" else ["upload", [b.decode() for b in e[1]], e[2], e[3]] for e in UHIST_FIXED[0][2]],
                     name="ok", variant="old"))
+    # several names, among them names that are another upload's temporary (C19_upload_history_final_names / _refuted)
+    for events in NHIST_FIXED:
+        run_names_history(ctx, impl, events, hist)
+        ctx.case(["nhistory", repr(events)], nontrivial=True)
+    for _ in range(ctx.n(12, 200)):
+        events = []
+        for _j in range(rng.randint(2, 4)):
+            bl = [bytes(rng.randrange(97, 123) for _ in range(rng.randint(1, 4))) for _ in range(rng.randint(0, 3))]
+            j = rng.randint(0, len(bl))
+            ending = rng.choice(["done", "done", "done", ("error", j, "source"), ("error", j, "disconnect"), ("badblock", j, rng.choice(impl.BAD_BLOCK_KINDS))])
+            events.append((rng.choice(["x", "x", "x.partial", "x.partial", "x.partial.partial", "y"]), bl, ending,
+                           rng.choice([None, None, rng.randint(0, len(bl) + 4)])))
+        run_names_history(ctx, impl, events, hist)
+        ctx.case(["nhistory", repr(events)], nontrivial=True)
+    ctx.sample(dict(names_history=[[n, [b.decode() for b in bl], e, c] for n, bl, e, c in NHIST_FIXED[0]]))
     jobs.append(make_job("C19_history_0", "correspondence/upload-history", "",
                          "list uevent * list str * list str * (list (str * ent) * list (list N))", [h["term"] for h in hist],
                          """Definition obs (c : list uevent * list str * list str * (list (str * ent) * list (list N))) : list (list N) :=
@@ -1282,6 +1396,116 @@ def symlink_check(ctx, impl, jobs):
                          """Definition obs (c : str * str * (list (str * ent) * list (list N))) : list (list N) :=
   let '(base, name, (ents, cont)) := c in [[b2n (publisher_reads_through_link (mk_st ents cont) cwd base name)]].
 """, [c["exp"] for c in pb], lambda i: "publisher with a pre-existing link %r" % (pb[i]["desc"],)))
+
+
+# ---------------------------------------------------------------------------
+# 8b. symbolic links AT the names that are READ without a remote-supplied name: the entries list_incident_names reports
+#     (remote_list_incidents, IncidentSubscription.catch_up) and the gatherer's state file `latest` (IncidentObserver.connect)
+
+SYM_LISTING = [("incident-evil.flog", "../sentinel/secret.flog"), ("incident-evil.flog.bz2", "../sentinel/secret.flog.bz2"),
+               ("incident-0.flog", "../sentinel/secret.flog"), ("incident-in.flog", "incident-1.flog"),
+               ("incident-dangling.flog", "../sentinel/nothing.flog"), ("incident-dir", "../sentinel"),
+               ("incident-abs.flog", None),            # absolute link text (filled in with the sentinel's path)
+               ("x-not-selected.flog", "../sentinel/secret.flog"), ("incident-skipped.flog.tmp", "../sentinel/secret.flog")]
+
+
+def outside(path, target):
+    """the file the kernel reaches for `path` is not inside the directory `target`"""
+    return not os.path.realpath(path).startswith(os.path.realpath(target) + os.sep)
+
+
+def listing_symlink_case(ctx, impl, entry, text, sinces, collect=None, sig=None):
+    arena, target, sent = impl.fresh("lstl")
+    impl.write_incident(os.path.join(sent, "secret.flog"), "OUTSIDE-secret")
+    impl.write_incident(os.path.join(sent, "secret.flog.bz2"), "OUTSIDE-secret-bz2", compress=True)
+    impl.write_incident(os.path.join(target, "incident-1.flog"), "inside-1")
+    impl.write_incident(os.path.join(target, "incident-2.flog.bz2"), "inside-2", compress=True)
+    if text is None:
+        text = os.path.join(sent, "secret.flog")
+    os.symlink(text, os.path.join(target, entry))
+    pub = impl.make_publisher(target)
+    listing = os.listdir(target)
+    ents = dir_ents(target)
+    for since in sinces:
+        _, names = impl.list_incident_names(pub, since)
+        for how, (out, res, raw) in (("remote_list_incidents", impl.list_incidents(pub, since)), ("catch_up", impl.catch_up(pub, since))):
+            through = [r for r in raw if os.path.islink(r)]
+            esc = [r for r in through if outside(r, target)]
+            ctx.hist("listing_symlink", "%s:%s" % (how, "through" if through else "not-through"))
+            if esc or "OUTSIDE" in repr(res):
+                ctx.fail(sig or "oracle/publisher-listing-follows-symlink",
+                         "LogPublisher %s(since=%r) with the log directory entry %r a symbolic link to %r opened %r and answered %r: "
+                         "a file outside the log directory was read (and its trigger sent to the peer)"
+                         % (how, since, entry, text, [os.path.relpath(r, arena) for r in esc], res),
+                         replay=dict(entry=entry, link_text=text, since=since, call=how, outcome=out, answer=repr(res)))
+            if collect is not None and how == "remote_list_incidents":
+                es, cs = coq_ents(ents)
+                collect.append(dict(term="(%s, %s, %s, (%s, %s))" % (cb(target), coq_list([cb(e) for e in listing]), cb(since), es, cs),
+                                    exp=[[1 if through else 0]] + [x for n, full in names for x in (list(enc(n)), list(enc(full)))],
+                                    desc=dict(entry=entry, text=text, since=since, outcome=out, reported=[n for n, _ in names])))
+
+
+STATE_FILES = [("L", "../sentinel/secret"), ("L", "../sentinel/nothing"), ("L", "incident-x.flog.bz2"), ("L", None), ("L", "../sentinel"),
+               ("F", b"incident-2008-07-29-204211-aspkxoi\n"), ("F", b""), ("D",), None]
+
+
+def state_symlink_case(ctx, impl, what, collect=None, sig=None):
+    """what: ('L', text) | ('F', content) | ('D',) | None = no state file"""
+    arena, target, sent = impl.fresh("gats")
+    with open(os.path.join(sent, "secret"), "wb") as f:
+        f.write(b"incident-SECRET-OUTSIDE\n")
+    with open(os.path.join(target, "incident-x.flog.bz2"), "wb") as f:
+        f.write(b"incident-inside\n")
+    latest = os.path.join(target, "latest")
+    if what is not None and what[0] == "L":
+        what = ("L", what[1] if what[1] is not None else os.path.join(sent, "secret"))
+        os.symlink(what[1], latest)
+    elif what is not None and what[0] == "F":
+        with open(latest, "wb") as f:
+            f.write(what[1])
+    elif what is not None:
+        os.mkdir(latest)
+    ents = dir_ents(target)
+    outside0 = impl.outside_snapshot(arena)
+    out, since, raw = impl.connect(target)
+    through = [r for r in raw if os.path.islink(r)]
+    esc = [r for r in through if outside(r, target)]
+    ctx.hist("state_read", "%s:%s" % ("none" if what is None else what[0], "through" if through else "not-through"))
+    if esc or b"SECRET" in (since or b"") or impl.outside_snapshot(arena) != outside0:
+        ctx.fail(sig or "oracle/gatherer-state-read-follows-symlink",
+                 "IncidentObserver.connect() with latest %r opened %r and sent since=%r to the publisher: the state file was read "
+                 "through a symbolic link, outside the gatherer's directory" % (what, [os.path.relpath(r, arena) for r in esc], since),
+                 replay=dict(latest=repr(what), outcome=out, since=repr(since)))
+    if what is not None and what[0] == "F" and (out != "ok" or since != what[1].strip()):
+        ctx.fail("oracle/gatherer-state-not-read", "IncidentObserver.connect() with a regular state file %r -> %s, since=%r"
+                 % (what[1], out, since), replay=dict(latest=repr(what), outcome=out, since=repr(since)), has_input=False)
+    if collect is not None:
+        es, cs = coq_ents(ents)
+        collect.append(dict(term="(%s, (%s, %s))" % (cb(target), es, cs), exp=[[1 if through else 0]],
+                            desc=dict(latest=repr(what), outcome=out, since=repr(since))))
+
+
+def read_symlink_check(ctx, impl, jobs):
+    ls, gs = [], []
+    for entry, text in SYM_LISTING:
+        listing_symlink_case(ctx, impl, entry, text, ["", "incident-1", "incident-e"], collect=ls)
+        ctx.case(["listing-symlink", entry, text], nontrivial=True)
+    for what in STATE_FILES:
+        state_symlink_case(ctx, impl, what, collect=gs)
+        ctx.case(["state-symlink", repr(what)], nontrivial=what is not None)
+    jobs.append(make_job("C19_symlinkl_0", "correspondence/listing-symlink", "", "str * list str * str * (list (str * ent) * list (list N))",
+                         [c["term"] for c in ls],
+                         """Definition obs (c : str * list str * str * (list (str * ent) * list (list N))) : list (list N) :=
+  let '(base, listing, since, (ents, cont)) := c in
+  let s0 := mk_st ents cont in
+  [b2n (followed (rrun s0 (listing_read_ops s0 base listing since)))] ::
+  flat_map (fun np => [fst np; snd np]) (list_incidents_at s0 base listing since).
+""", [c["exp"] for c in ls], lambda i: "listing with a symlinked entry %r" % (ls[i]["desc"],)))
+    jobs.append(make_job("C19_symlinks_0", "correspondence/gatherer-state-symlink", "", "str * (list (str * ent) * list (list N))",
+                         [c["term"] for c in gs],
+                         """Definition obs (c : str * (list (str * ent) * list (list N))) : list (list N) :=
+  let '(base, (ents, cont)) := c in [[b2n (followed (rrun (mk_st ents cont) (connect_read_ops base)))]].
+""", [c["exp"] for c in gs], lambda i: "connect with the state file %r" % (gs[i]["desc"],)))
 
 
 # ---------------------------------------------------------------------------
